@@ -3,8 +3,10 @@ package main
 // C13 — header parameter rules, identical on encode and decode.
 
 import (
+	"fmt"
 	"go/types"
 	"sort"
+	"strings"
 
 	"golang.org/x/tools/go/ssa"
 )
@@ -187,4 +189,482 @@ func (l *loopInfo) rangeInstr() *ssa.Range {
 		}
 	}
 	return nil
+}
+
+// ---------------------------------------------------------------------------
+// C13 proper
+
+func init() {
+	register(&propSpec{id: "C13", title: "header parameter rules, identical on encode and decode", run: runC13, mutants: mutC13, design: "DESIGN.md section 3, C13"})
+}
+
+var ianaLabels = map[string]int64{
+	"HeaderLabelAlgorithm": 1, "HeaderLabelCritical": 2, "HeaderLabelContentType": 3, "HeaderLabelKeyID": 4,
+	"HeaderLabelIV": 5, "HeaderLabelPartialIV": 6, "HeaderLabelCounterSignature": 7, "HeaderLabelCounterSignature0": 9,
+	"HeaderLabelCounterSignatureV2": 11, "HeaderLabelCounterSignature0V2": 12, "HeaderLabelType": 16,
+}
+
+func runC13(r *Report, tier string) {
+	P := r.P
+	r.rule("R13.1", "the validator's per-entry paths, lowered to a table label -> conditions on the way to acceptance, satisfy RFC 9052 3.1 / RFC 9338: alg: Algorithm|int|tstr; crit: protected only, crit helper succeeded; content type / typ: uint, or tstr non-empty without leading/trailing space and with exactly one '/'; kid, IV, Partial IV: bstr; IV and Partial IV exclude each other; 7/11: unprotected only, countersignature value predicate; 9/12: unprotected only, bstr; every label normalises and is not a duplicate. The value predicates are identified and checked by their kind tables (int: ten integer kinds; uint: unsigned kinds, signed with >= 0; tstr; bstr); label constants equal their IANA values.")
+	r.rule("R13.2", "the four bucket (un)marshalers reach the same validator, protected ones with the constant true, unprotected ones with false, on every non-empty success path; every structure encoder carries ok(cross-bucket IV check) on its own Headers, the function the decoders use (R05.5).")
+	r.rule("R13.3", "uniqueness: every accepted entry has passed the duplicate test on the normalised label; decode side: DupMapKeyEnforcedAPF and IntDecConvertSigned (R05.1).")
+	r.rule("R13.4", "decode-side label typing: the raw label scan admits major types 0, 1, 3 only and refuses integers beyond int64.")
+	r.rule("R13.5", "crit helper: success requires a non-empty []any whose every element (full-range loop) is int or tstr and is present, by normalising lookup, in the same bucket's map.")
+	r.rule("R13.6", "every keyed read of a header map by label goes through a lookup that normalises the map's keys (spelling-insensitive).")
+	r.rule("R13.7", "label normalisation accepts exactly the ten Go integer kinds (converted to int64) and string (unchanged).")
+
+	val := P.headerValidator()
+	norm := P.labelNormalizer()
+	r.analysed(val, norm)
+	// label constants
+	for name, v := range ianaLabels {
+		got, ok := P.constVal(name)
+		r.ob("R13.1", "const:"+name, nil, nil, fmt.Sprintf("%s == %d (IANA)", name, v)).check(ok && got == v, fmt.Sprintf("%d", got), fmt.Sprintf("%s = %d, IANA value is %d", name, got, v))
+	}
+	// predicates by kind table
+	classes := map[string][]*ssa.Function{}
+	isClass := map[string]string{}
+	for _, pc := range P.valuePredicates() {
+		if pc.class != "" {
+			classes[pc.class] = append(classes[pc.class], pc.fn)
+			isClass[shortFn(pc.fn)] = pc.class
+		}
+		r.sample(map[string]any{"predicate": shortFn(pc.fn), "accepts": pc.kinds.String(), "class": pc.class})
+	}
+	for _, c := range []string{"int", "uint", "tstr", "bstr"} {
+		o := r.ob("R13.1", "predicate:"+c, nil, nil, "a value predicate with exactly the "+c+" kind table exists")
+		var ns []string
+		for _, f := range classes[c] {
+			ns = append(ns, shortFn(f))
+		}
+		o.check(len(classes[c]) > 0, strings.Join(ns, ","), "no in-package func(any) bool accepts exactly the "+c+" kinds (a kind was added or lost)")
+	}
+	// R13.7 normaliser
+	{
+		kt, ok, why := P.acceptedKinds(norm)
+		want := wantKinds(nil, signedKinds, unsignedKinds, []string{"string"})
+		o := r.ob("R13.7", shortFn(norm)+":kinds", norm, nil, "normalisation accepts the ten integer kinds and string")
+		o.check(ok && kindsEqual(kt, want), kt.String(), "accepts "+kt.String()+" "+why)
+		// conversions
+		bad := ""
+		for _, p := range P.allPaths(norm) {
+			res := p.results()
+			if res[1].Op == "const" && res[1].S == "false" {
+				continue
+			}
+			v := res[0]
+			switch {
+			case v.String() == "$0":
+				// string arm: must be under typeassert<string>
+				if !p.has(Fact{&Term{Op: "res", S: "1", Args: []*Term{{Op: "typeassert", S: "string,ok", Args: []*Term{T("param", "0")}}}}, true}) {
+					bad = "the label is returned unchanged on a path that is not the string arm"
+				}
+			case v.Op == "iface" && v.S == "int64":
+			default:
+				bad = "an accepting path returns " + v.String() + ", neither an int64 nor the string itself"
+			}
+		}
+		r.ob("R13.7", shortFn(norm)+":result", norm, nil, "integers are returned as int64, strings unchanged").check(bad == "", "int64 / string", bad)
+	}
+
+	// R13.1 table
+	eps, _ := P.validatorEntryPaths(val)
+	V := mustPat("res<2>(next(range($0)))")
+	csGood := checkCountersigValuePredicate(r, "R13.1")
+	crit := map[*ssa.Function]bool{}
+	byLabel := map[int64][]*entryPath{}
+	nAcc := 0
+	for _, ep := range eps {
+		if !ep.accepted {
+			continue
+		}
+		nAcc++
+		r.paths++
+		if ep.known {
+			byLabel[ep.label] = append(byLabel[ep.label], ep)
+		}
+	}
+	predTrue := func(ep *entryPath, class string) bool {
+		for _, c := range ep.p.conds {
+			if c.Val && c.Pred.Op == "call" && isClass[c.Pred.S] == class && len(c.Pred.Args) == 1 && c.Pred.Args[0].eq(V) {
+				return true
+			}
+		}
+		return false
+	}
+	typeIs := func(ep *entryPath, t string) bool {
+		return ep.p.has(Fact{&Term{Op: "res", S: "1", Args: []*Term{{Op: "typeassert", S: t + ",ok", Args: []*Term{V}}}}, true})
+	}
+	flag := func(ep *entryPath, v bool) bool { return ep.p.has(Fact{T("param", "1"), v}) }
+	absent := func(ep *entryPath, k int64) bool {
+		for _, c := range ep.p.conds {
+			if c.Val {
+				continue
+			}
+			call := c.Pred
+			if call.Op == "res" && len(call.Args) == 1 {
+				call = call.Args[0]
+			}
+			if call.Op == "call" && len(call.Args) == 2 && call.Args[0].String() == "$0" && call.Args[1].String() == "iface<int64>("+itoa(k)+")" && P.calleeOfTerm(call) != nil {
+				return true
+			}
+		}
+		return false
+	}
+	tstrRules := func(ep *entryPath) string {
+		S := &Term{Op: "typeassert", S: "string", Args: []*Term{V}}
+		fs := factSet{}
+		for _, c := range ep.p.conds {
+			fs.add(c)
+		}
+		miss, _ := fs.firstMissing([]factPat{
+			fp("!binop<==>(0, len(%S))"),
+			fp("!binop<==>(index(%S, 0), 32)"),
+			fp("!binop<==>(index(%S, binop<->(len(%S), 1)), 32)"),
+			fp("binop<==>(call<strings.Count>(%S, \"/\"), 1)"),
+		}, bindings{"S": S})
+		return miss
+	}
+	type cell struct {
+		label int64
+		what  string
+		check func(ep *entryPath) string
+	}
+	bstr := func(ep *entryPath) string {
+		if !predTrue(ep, "bstr") {
+			return "value accepted without the bstr predicate"
+		}
+		return ""
+	}
+	ct := func(ep *entryPath) string {
+		if predTrue(ep, "uint") && !predTrue(ep, "tstr") {
+			return ""
+		}
+		if predTrue(ep, "tstr") {
+			if m := tstrRules(ep); m != "" {
+				return "text value accepted without " + m
+			}
+			return ""
+		}
+		return "value accepted that is neither uint nor tstr"
+	}
+	cs := func(ep *entryPath) string {
+		if !flag(ep, false) {
+			return "accepted in the protected bucket"
+		}
+		okv := false
+		for _, c := range ep.p.conds {
+			if c.Val && c.Pred.Op == "call" && len(c.Pred.Args) == 1 && c.Pred.Args[0].eq(V) {
+				if f := P.calleeOfTerm(c.Pred); f != nil && csGood[f] {
+					okv = true
+				}
+			}
+		}
+		if csGood[val] && (typeIs(ep, "*Countersignature") || typeIs(ep, "[]*Countersignature")) {
+			okv = true
+		}
+		if !okv {
+			return "value accepted without the countersignature value predicate"
+		}
+		return ""
+	}
+	unprotBstr := func(ep *entryPath) string {
+		if !flag(ep, false) {
+			return "accepted in the protected bucket"
+		}
+		return bstr(ep)
+	}
+	table := []cell{
+		{1, "alg: Algorithm | int | tstr", func(ep *entryPath) string {
+			if typeIs(ep, "Algorithm") || predTrue(ep, "int") || predTrue(ep, "tstr") {
+				return ""
+			}
+			return "value accepted that is neither Algorithm, int nor tstr"
+		}},
+		{2, "crit: protected only, crit helper ok", func(ep *entryPath) string {
+			if !flag(ep, true) {
+				return "crit accepted in the unprotected bucket"
+			}
+			for _, c := range ep.p.conds {
+				if c.Val && c.Pred.Op == "binop" && c.Pred.S == "==" {
+					for i := 0; i < 2; i++ {
+						call := c.Pred.Args[i]
+						if c.Pred.Args[1-i].Op == "nil" && call.Op == "call" && len(call.Args) == 2 && call.Args[0].eq(V) && call.Args[1].String() == "$0" {
+							if f := P.calleeOfTerm(call); f != nil {
+								crit[f] = true
+								return ""
+							}
+						}
+					}
+				}
+			}
+			return "crit accepted without ok(crit helper(value, same map))"
+		}},
+		{3, "content type: uint | type/subtype text", ct},
+		{16, "typ: uint | type/subtype text", ct},
+		{4, "kid: bstr", bstr},
+		{5, "IV: bstr, no Partial IV", func(ep *entryPath) string {
+			if m := bstr(ep); m != "" {
+				return m
+			}
+			if !absent(ep, 6) {
+				return "IV accepted without the Partial IV absence test on the same map"
+			}
+			return ""
+		}},
+		{6, "Partial IV: bstr, no IV", func(ep *entryPath) string {
+			if m := bstr(ep); m != "" {
+				return m
+			}
+			if !absent(ep, 5) {
+				return "Partial IV accepted without the IV absence test on the same map"
+			}
+			return ""
+		}},
+		{7, "counter signature: unprotected only, countersignature value", cs},
+		{11, "counter signature v2: unprotected only, countersignature value", cs},
+		{9, "countersignature0: unprotected only, bstr", unprotBstr},
+		{12, "countersignature0 v2: unprotected only, bstr", unprotBstr},
+	}
+	for _, c := range table {
+		ps := byLabel[c.label]
+		o := r.ob("R13.1", fmt.Sprintf("label:%d", c.label), val, nil, c.what)
+		if len(ps) == 0 {
+			o.fail(fmt.Sprintf("no accepting path of the validator is specific to label %d: its value is unconstrained", c.label))
+			continue
+		}
+		why := ""
+		for _, ep := range ps {
+			if m := c.check(ep); m != "" {
+				why = m + " [path: " + ep.condStrings() + "]"
+			}
+		}
+		if len(why) > 900 {
+			why = why[:900] + "..."
+		}
+		o.check(why == "", fmt.Sprintf("%d accepting paths, all satisfy the cell", len(ps)), why)
+	}
+	r.floor("R13.1", nAcc, 15, "accepting per-entry paths of the validator")
+	// R13.3 + normalisation on every accepted path
+	{
+		why := ""
+		for _, ep := range eps {
+			if !ep.accepted {
+				continue
+			}
+			okNorm, okDup := false, false
+			for _, c := range ep.p.conds {
+				if c.Val && c.Pred.Op == "res" && c.Pred.S == "1" && c.Pred.Args[0].Op == "call" && c.Pred.Args[0].S == shortFn(norm) {
+					okNorm = true
+				}
+				if !c.Val && c.Pred.Op == "res" && c.Pred.S == "1" && c.Pred.Args[0].Op == "lookup" && c.Pred.Args[0].S == "ok" && strings.Contains(c.Pred.Args[0].Args[1].String(), "call<"+shortFn(norm)+">") {
+					okDup = true
+				}
+			}
+			if !okNorm {
+				why = "an entry is accepted without a successful label normalisation"
+			} else if !okDup {
+				why = "an entry is accepted without the duplicate test on its normalised label"
+			}
+		}
+		r.ob("R13.3", shortFn(val)+":unique", val, nil, "every accepted entry normalised its label and passed the duplicate test").check(why == "", "normalise ok and !seen(label) on every accepting path", why)
+		// the set is filled with the normalised label
+		filled := false
+		for _, b := range val.Blocks {
+			for _, in := range b.Instrs {
+				if mu, ok := in.(*ssa.MapUpdate); ok && strings.Contains(P.terms.of(mu.Key).String(), "call<"+shortFn(norm)+">") && P.terms.of(mu.Map).Op == "makemap" {
+					filled = true
+				}
+			}
+		}
+		r.ob("R13.3", shortFn(val)+":records", val, nil, "the normalised label is recorded in the seen-set").check(filled, "seen[normalised label] = ...", "no insertion of the normalised label into a local set")
+	}
+	// R13.2 encoders + decoders
+	for _, tn := range []struct {
+		name string
+		flag string
+	}{{"ProtectedHeader", "true"}, {"UnprotectedHeader", "false"}} {
+		enc := P.methodOf(P.mustNamed(tn.name), "MarshalCBOR")
+		if enc == nil {
+			undecidedf("anchor not found: %s.MarshalCBOR", tn.name)
+		}
+		np := 0
+		for _, p := range P.allPaths(enc) {
+			if !p.feasible() {
+				continue
+			}
+			fs := factSet{}
+			for _, c := range p.conds {
+				fs.add(c)
+			}
+			res := p.results()
+			if k, _ := P.classifyErr(res[1], fs); k == exitFailure {
+				continue
+			}
+			np++
+			o := r.ob("R13.2", shortFn(enc)+":path:"+pathID(p), enc, p.ret, "bucket encoder: empty header, or ok(validator(h, "+tn.flag+"))")
+			empty := len(fs.matchAll([]factPat{fp("binop<==>(0, len($0))")}, nil)) > 0
+			okv := len(fs.matchAll([]factPat{fp(okp("call<" + shortFn(val) + ">($0, " + tn.flag + ")"))}, nil)) > 0
+			o.check(empty || okv, fmt.Sprintf("empty:%v validated:%v", empty, okv), "a non-empty header can be encoded without ok("+shortFn(val)+"(h, "+tn.flag+"))")
+		}
+		r.floor("R13.2", np, 2, "success paths of "+shortFn(enc))
+	}
+	c05Buckets(r, "R13.2")
+	iv := P.ivCheck()
+	ne := 0
+	for _, T := range P.structureTypes() {
+		enc := P.methodOf(T, "MarshalCBOR")
+		if enc == nil {
+			continue
+		}
+		for _, x := range P.factsOf(enc).exits {
+			if x.kind == exitFailure {
+				continue
+			}
+			ne++
+			fs := exitFacts(P, x)
+			ok := len(fs.matchAll([]factPat{fp(okp("call<" + shortFn(iv) + ">($0.Headers)"))}, nil)) > 0
+			r.ob("R13.2", shortFn(enc)+":iv:"+exitID(P, enc, x), enc, x.ret, "structure encoder carries ok(cross-bucket IV check) on its Headers").check(ok, "ok("+shortFn(iv)+"($0.Headers))", "an encoder success exit lacks ok("+shortFn(iv)+"(Headers))")
+		}
+	}
+	r.floor("R13.2", ne, 5, "structure encoder success exits")
+	// the IV check itself: both directions
+	{
+		np := 0
+		why := ""
+		for _, p := range P.allPaths(iv) {
+			if !p.feasible() {
+				continue
+			}
+			fs := factSet{}
+			for _, c := range p.conds {
+				fs.add(c)
+			}
+			if k, _ := P.classifyErr(p.results()[0], fs); k == exitFailure {
+				continue
+			}
+			np++
+			// success: not (IV in protected and PIV in unprotected), not (PIV in protected and IV in unprotected)
+			for _, pr := range [][2]int64{{5, 6}, {6, 5}} {
+				a := fmt.Sprintf("call<%%F>(*$0.Protected, iface<int64>(%d))", pr[0])
+				b := fmt.Sprintf("call<%%F>(*$0.Unprotected, iface<int64>(%d))", pr[1])
+				ma := len(fs.matchAll([]factPat{fp("!" + strings.Replace(a, "%F", "%", 1))}, nil)) > 0
+				mb := len(fs.matchAll([]factPat{fp("!" + strings.Replace(b, "%F", "%", 1))}, nil)) > 0
+				if !ma && !mb {
+					why = fmt.Sprintf("the IV check can succeed with label %d protected and label %d unprotected", pr[0], pr[1])
+				}
+			}
+		}
+		r.ob("R13.2", shortFn(iv)+":both-directions", iv, nil, "the cross-bucket check refuses IV/Partial IV in both directions").check(why == "" && np > 0, fmt.Sprintf("%d success paths", np), why)
+	}
+	// R13.4
+	c05LabelScanOnly(r, "R13.4")
+	// R13.5
+	var cfs []*ssa.Function
+	for f := range crit {
+		cfs = append(cfs, f)
+	}
+	sort.Slice(cfs, func(i, j int) bool { return cfs[i].String() < cfs[j].String() })
+	r.floor("R13.5", len(cfs), 1, "crit helper")
+	for _, cf := range cfs {
+		r.analysed(cf)
+		arr := mustPat("res<0>(typeassert<[]any,ok>($0))")
+		var L *loopInfo
+		for _, l := range findLoops(cf) {
+			if l.over != nil && P.terms.of(l.over).eq(arr) && l.fullRange {
+				L = l
+			}
+		}
+		for _, x := range P.factsOf(cf).exits {
+			if x.kind == exitFailure {
+				continue
+			}
+			o := r.ob("R13.5", shortFn(cf)+":exit:"+exitID(P, cf, x), cf, x.ret, "crit: []any, non-empty, every element int|tstr and present in the same map")
+			miss, _ := x.facts.firstMissing([]factPat{fp("res<1>(typeassert<[]any,ok>($0))"), fp("!binop<==>(0, len(res<0>(typeassert<[]any,ok>($0))))")}, nil)
+			why := ""
+			switch {
+			case miss != "":
+				why = "missing " + miss
+			case L == nil:
+				why = "no full-range loop over the crit array"
+			case !(L.exit == x.ret.Block() || L.exit.Dominates(x.ret.Block())):
+				why = "success is reachable without completing the loop"
+			default:
+				for _, p := range P.enumPaths(cf, L.body, func(b *ssa.BasicBlock) bool { return b == L.header }, false) {
+					if p.ret != nil {
+						fs := factSet{}
+						for _, c := range p.conds {
+							fs.add(c)
+						}
+						if k, _ := P.classifyErr(p.results()[0], fs); k != exitFailure {
+							why = "the loop body can return success"
+						}
+						continue
+					}
+					typed, present := false, false
+					for _, c := range p.conds {
+						if c.Val && c.Pred.Op == "call" && (isClass[c.Pred.S] == "int" || isClass[c.Pred.S] == "tstr") && strings.Contains(c.Pred.Args[0].String(), "index(") {
+							typed = true
+						}
+						if c.Val && c.Pred.Op == "res" && c.Pred.S == "1" && c.Pred.Args[0].Op == "call" && len(c.Pred.Args[0].Args) == 2 && c.Pred.Args[0].Args[0].String() == "$1" && strings.Contains(c.Pred.Args[0].Args[1].String(), "index(") {
+							present = true
+						}
+					}
+					if !typed {
+						why = "an element can pass without the int|tstr test"
+					} else if !present {
+						why = "an element can pass without the presence test in the same map"
+					}
+				}
+			}
+			o.check(why == "", "[]any, len != 0, per element int|tstr and present", why)
+		}
+	}
+	// R13.6
+	checkLabelLookups(r, "R13.6", "C13")
+	// decode-side uniqueness options
+	for _, mc := range P.modeConfigs() {
+		if !mc.enc {
+			checkModeOptions(r, "R13.3", mc, map[string]int64{"DupMapKey": P.cborConst("DupMapKeyEnforcedAPF"), "IntDec": P.cborConst("IntDecConvertSigned")}, nil)
+		}
+	}
+}
+
+func mutC13() []mutant {
+	return []mutant{
+		{Name: "D2 re-created: hasLabel looks the label up with a bare key", File: "headers.go", Quick: true, Rule: "R13.6",
+			Old: "\t_, ok := lookupLabel(h, label)\n\treturn ok", New: "\t_, ok := h[label]\n\treturn ok"},
+		{Name: "kid arm also accepts text", File: "headers.go", Quick: true, Rule: "R13.1",
+			Old: "\t\t\tif !canBstr(value) {\n\t\t\t\treturn errors.New(\"header parameter: kid: require bstr type\")", New: "\t\t\tif !canBstr(value) && !canTstr(value) {\n\t\t\t\treturn errors.New(\"header parameter: kid: require bstr type\")"},
+		{Name: "crit allowed in the unprotected bucket", File: "headers.go", Rule: "R13.1",
+			Old: "\t\t\tif !protected {\n\t\t\t\treturn errors.New(\"header parameter: crit: not allowed\")\n\t\t\t}\n", New: ""},
+		{Name: "label 11 arm loses the protected refusal", File: "headers.go", Rule: "R13.1",
+			Old: "\t\t\tif protected {\n\t\t\t\treturn errors.New(\"header parameter: Countersignature version 2: not allowed\")\n\t\t\t}\n", New: ""},
+		{Name: "canUint loses int32", File: "headers.go", Rule: "R13.1",
+			Old: "\tcase int32:\n\t\treturn v >= 0\n", New: ""},
+		{Name: "canUint accepts negative int16", File: "headers.go", Rule: "R13.1",
+			Old: "\tcase int16:\n\t\treturn v >= 0\n", New: "\tcase int16:\n\t\treturn true\n"},
+		{Name: "normalizeLabel loses uint16", File: "headers.go", Rule: "R13.7",
+			Old: "\tcase uint16:\n\t\tlabel = int64(v)\n", New: ""},
+		{Name: "validator call removed from the unprotected decoder", File: "headers.go", Rule: "R13.2",
+			Old: "\tif err := validateHeaderParameters(header, false); err != nil {\n\t\treturn fmt.Errorf(\"unprotected header: %w\", err)\n\t}\n\t*h = header", New: "\t*h = header"},
+		{Name: "protected encoder validates with protected=false", File: "headers.go", Rule: "R13.2",
+			Old: "\t\terr := validateHeaderParameters(h, true)\n", New: "\t\terr := validateHeaderParameters(h, false)\n"},
+		{Name: "duplicate test on the un-normalised label", File: "headers.go", Rule: "R13.3",
+			Old: "\t\tlabel, ok := normalizeLabel(label)\n\t\tif !ok {\n\t\t\treturn errors.New(\"header label: require int / tstr type\")\n\t\t}\n\n\t\t// Validate that there are no duplicated labels.\n\t\t// Reference: https://datatracker.ietf.org/doc/html/rfc8152#section-3\n\t\tif _, ok := existing[label]; ok {",
+			New: "\t\traw := label\n\t\tlabel, ok := normalizeLabel(label)\n\t\tif !ok {\n\t\t\treturn errors.New(\"header label: require int / tstr type\")\n\t\t}\n\n\t\t// Validate that there are no duplicated labels.\n\t\t// Reference: https://datatracker.ietf.org/doc/html/rfc8152#section-3\n\t\tif _, ok := existing[raw]; ok {"},
+		{Name: "Partial IV arm forgets the IV test", File: "headers.go", Rule: "R13.1",
+			Old: "\t\t\tif hasLabel(h, HeaderLabelIV) {\n\t\t\t\treturn errors.New(\"header parameter: IV and PartialIV: parameters must not both be present\")\n\t\t\t}\n", New: ""},
+		{Name: "content type no longer requires exactly one slash", File: "headers.go", Rule: "R13.1", Nth: 2,
+			Old: "if strings.Count(v, \"/\") != 1 {", New: "if strings.Count(v, \"/\") < 1 {"},
+		{Name: "crit elements no longer need to be present", File: "headers.go", Rule: "R13.5",
+			Old: "\t\tif _, ok := lookupLabel(headers, label); !ok {\n\t\t\treturn fmt.Errorf(\"missing critical header: %v\", label)\n\t\t}\n", New: ""},
+		{Name: "Signature encoder skips the cross-bucket IV check", File: "headers.go", Rule: "R13.2",
+			Old: "func (h *Headers) marshal() (cbor.RawMessage, cbor.RawMessage, error) {\n\tif err := h.ensureIV(); err != nil {\n\t\treturn nil, nil, err\n\t}\n", New: "func (h *Headers) marshal() (cbor.RawMessage, cbor.RawMessage, error) {\n"},
+		{Name: "cross-bucket IV check only one direction", File: "headers.go", Rule: "R13.2",
+			Old: "\tif hasLabel(h.Protected, HeaderLabelPartialIV) && hasLabel(h.Unprotected, HeaderLabelIV) {\n\t\treturn errors.New(\"IV (unprotected) and PartialIV (protected) parameters must not both be present\")\n\t}\n", New: ""},
+		{Name: "HeaderLabelKeyID renumbered", File: "headers.go", Rule: "R13.1",
+			Old: "HeaderLabelKeyID               int64 = 4", New: "HeaderLabelKeyID               int64 = 14"},
+	}
 }
